@@ -23,6 +23,7 @@ and to let K/S find a failing input; if the region stays unreached it reports
 Nothing here replaces a theorem or the correspondence; it bounds what the correspondence can be trusted for.
 """
 import glob
+import re
 import hashlib
 import json
 import os
@@ -180,7 +181,12 @@ def measure(prop, reqs, repo, tools, work, keep=False, run_prop=None):
                 # the implicit error-propagation arm of a `?` operator: no code of its own
                 o["regions"] -= 1
                 continue
-            o["unreached"].append((key[1], key[2], text.strip()[:160], key[3]))
+            # the source text of the region itself (start position .. end position)
+            if key[3] == key[1]:
+                rtext = text[key[2] - 1:key[4] - 1]
+            else:
+                rtext = "\n".join([text[key[2] - 1:]] + src[key[1]:key[3] - 1] + [src[key[3] - 1][:key[4] - 1] if key[3] - 1 < len(src) else ""])
+            o["unreached"].append((key[1], key[2], text.strip()[:160], key[3], rtext[:400]))
     return out
 
 
@@ -207,6 +213,16 @@ def changed_lines(base_hashes, path):
     return {i + 1 for i in range(len(cur)) if i not in same and cur[i] != blank}
 
 
+_INERT = re.compile(r"^\{?\s*(return\s*;?|continue\s*;?|unreachable!\s*\(.*\)\s*;?|panic!\s*\(.*\)\s*;?|debug_assert\w*!\s*\(.*\)\s*;?)\s*\}?\s*,?$", re.S)
+
+
+def inert(body):
+    """an arm with no computation of its own: the defensive `else { return; }` of a `let … else`, an `unreachable!()`, a
+    `panic!(…)` for an impossible state.  Refactors add such arms routinely and nothing can execute them; they are listed in
+    the evidence but do not make the reach leg report a violation (an arm that computes or returns a value does)."""
+    return bool(_INERT.match(body.strip()))
+
+
 def classify(prop, result, repo):
     """split unreached regions into known (no line of the region is new or modified relative to the validated tree)
     and new (the region contains new or modified code)"""
@@ -220,7 +236,11 @@ def classify(prop, result, repo):
             le = u[3] if len(u) > 3 else ln
             item = {"file": rel, "line": ln, "col": col, "text": text, "end_line": le}
             hit = sorted(x for x in ch if ln <= x <= le)
-            if hit:
+            body = u[4] if len(u) > 4 else text
+            if hit and inert(body):
+                item["inert"] = True       # a bare `return;` / `continue;` / `unreachable!` / `panic!` arm: listed, not judged
+                known.append(item)
+            elif hit:
                 item["changed_lines"] = hit[:10]
                 new.append(item)
             else:
